@@ -481,31 +481,31 @@ def _(I, ctx, v, n): return ListIt([copy_value(v) for _ in range(ctx.concretize(
 def _(I, ctx, v): return ListIt([v])
 @model('re:^(std::iter::|core::iter::)empty$')
 def _(I, ctx): return ListIt([])
-@model('re:^(?:core|std|alloc)::slice::<impl \\[.*\\]>::(split_at|split_at_mut)$')
+@model('re:^(?:(?:core|std|alloc)::)?slice::<impl \\[.*\\]>::(split_at|split_at_mut)$')
 def _(I, ctx, r, n):
     l, lo, hi = seq_view(r); k = ctx.concretize(n)
     if k > hi - lo: raise Panic('mid > len')
     return TUPLE(ValRef(SliceV(l, lo, lo + k)), ValRef(SliceV(l, lo + k, hi)))
-@model('re:^(?:core|std|alloc)::slice::<impl \\[.*\\]>::(split_first|split_last|split_first_mut|split_last_mut)$')
+@model('re:^(?:(?:core|std|alloc)::)?slice::<impl \\[.*\\]>::(split_first|split_last|split_first_mut|split_last_mut)$')
 def _(I, ctx, r):
     l, lo, hi = seq_view(r)
     if hi == lo: return NONE()
     if 'split_first' in ctx.cur_key: return SOME(TUPLE(ElemRef(l, lo), ValRef(SliceV(l, lo + 1, hi))))
     return SOME(TUPLE(ElemRef(l, hi - 1), ValRef(SliceV(l, lo, hi - 1))))
-@model('re:^(?:core|std|alloc)::slice::<impl \\[.*\\]>::(ends_with)$')
+@model('re:^(?:(?:core|std|alloc)::)?slice::<impl \\[.*\\]>::(ends_with)$')
 def _(I, ctx, r, p):
     a, b = seq_items(r), seq_items(p)
     if len(b) > len(a): return False
     return ctx.branch(values_eq(I, ctx, a[len(a) - len(b):], b)) if b else True
-@model('re:^(?:core|std|alloc)::slice::<impl \\[.*\\]>::(reverse)$')
+@model('re:^(?:(?:core|std|alloc)::)?slice::<impl \\[.*\\]>::(reverse)$')
 def _(I, ctx, r):
     l, lo, hi = seq_view(r); l[lo:hi] = l[lo:hi][::-1]; return UNIT
-@model('re:^(?:core|std|alloc)::slice::<impl \\[.*\\]>::(swap)$')
+@model('re:^(?:(?:core|std|alloc)::)?slice::<impl \\[.*\\]>::(swap)$')
 def _(I, ctx, r, a, b):
     l, lo, hi = seq_view(r); i, j = ctx.concretize(a), ctx.concretize(b)
     if i >= hi - lo or j >= hi - lo: raise Panic('index out of bounds')
     l[lo + i], l[lo + j] = l[lo + j], l[lo + i]; return UNIT
-@model('re:^(?:core|std|alloc)::slice::<impl \\[.*\\]>::(concat|join)$', 're:^alloc::slice::<impl \\[.*\\]>::(concat|join)$', 're:^std::slice::<impl \\[.*\\]>::(concat|join)$')
+@model('re:^(?:(?:core|std|alloc)::)?slice::<impl \\[.*\\]>::(concat|join)$', 're:^alloc::slice::<impl \\[.*\\]>::(concat|join)$', 're:^std::slice::<impl \\[.*\\]>::(concat|join)$')
 def _(I, ctx, r, *sep):
     out = []; first = True
     for x in seq_items(r):
@@ -1010,7 +1010,7 @@ def _(I, ctx, a, b):
     return SOME(o) if 'partial' in ctx.cur_key else o
 
 
-@model('Vec::as_ptr', 'Vec::as_mut_ptr', 're:^(?:core|std|alloc)::slice::<impl \\[.*\\]>::(as_ptr|as_mut_ptr)$')
+@model('Vec::as_ptr', 'Vec::as_mut_ptr', 're:^(?:(?:core|std|alloc)::)?slice::<impl \\[.*\\]>::(as_ptr|as_mut_ptr)$')
 def _(I, ctx, r):
     l, lo, hi = seq_view(r)
     return Agg('RawPtr', [l, lo])
@@ -1120,11 +1120,11 @@ def _stable_sort(I, ctx, l, lo, hi, less):
     l[lo:hi] = out
 
 
-@model('re:^(?:core|std|alloc)::slice::<impl \\[.*\\]>::(sort|sort_unstable)$')
+@model('re:^(?:(?:core|std|alloc)::)?slice::<impl \\[.*\\]>::(sort|sort_unstable)$')
 def _(I, ctx, r):
     l, lo, hi = seq_view(r)
     _stable_sort(I, ctx, l, lo, hi, lambda a, b: cmp_values(I, ctx, a, b) < 0); return UNIT
-@model('re:^(?:core|std|alloc)::slice::<impl \\[.*\\]>::(sort_by_key|sort_unstable_by_key|sort_by_cached_key)$')
+@model('re:^(?:(?:core|std|alloc)::)?slice::<impl \\[.*\\]>::(sort_by_key|sort_unstable_by_key|sort_by_cached_key)$')
 def _(I, ctx, r, f):
     l, lo, hi = seq_view(r)
     keys = {}
@@ -1132,11 +1132,11 @@ def _(I, ctx, r, f):
         if id(x) not in keys: keys[id(x)] = I.call_value(ctx, ctx.cur_crate, f, [ValRef(x)])
         return keys[id(x)]
     _stable_sort(I, ctx, l, lo, hi, lambda a, b: cmp_values(I, ctx, key(a), key(b)) < 0); return UNIT
-@model('re:^(?:core|std|alloc)::slice::<impl \\[.*\\]>::(sort_by|sort_unstable_by)$')
+@model('re:^(?:(?:core|std|alloc)::)?slice::<impl \\[.*\\]>::(sort_by|sort_unstable_by)$')
 def _(I, ctx, r, f):
     l, lo, hi = seq_view(r)
     _stable_sort(I, ctx, l, lo, hi, lambda a, b: I.call_value(ctx, ctx.cur_crate, f, [ValRef(a), ValRef(b)]).variant == 'Less'); return UNIT
-@model('re:^(?:core|std|alloc)::slice::<impl \\[.*\\]>::(binary_search_by_key|binary_search_by|binary_search)$')
+@model('re:^(?:(?:core|std|alloc)::)?slice::<impl \\[.*\\]>::(binary_search_by_key|binary_search_by|binary_search)$')
 def _(I, ctx, r, *a): raise Unsupported('binary search')
 
 
